@@ -20,6 +20,8 @@ ASSUMPTIONS = ["poll interleavings / fragmentation of the byte streams are not e
 TRUSTED = ["tokio oneshot delivers at most one value"]
 
 MUTANTS = [
+    {"name": "collect-loop-bounded-without-poll", "file": "src/proxy/session.rs", "old": "        while let Some(reply_receiver) = reply_receiver_list.front_mut() {\n            match Pin::new(reply_receiver).poll(cx) {", "new": "        while let Some(reply_receiver) = reply_receiver_list.front_mut() {\n            if replies.len() >= SESSION_BATCH_BUF {\n                break;\n            }\n            match Pin::new(reply_receiver).poll(cx) {", "expect": "C08.D5:collect-loop-stops-only-empty-or-polled"},
+    {"name": "mget-subreplies-unordered", "file": "src/proxy/executor.rs", "old": "        let mut values = vec![];\n        let res = future::join_all(futs).await;", "new": "        let mut values = vec![];\n        let res: Vec<_> = futures::StreamExt::collect::<Vec<_>>(futs.into_iter().collect::<futures::stream::FuturesUnordered<_>>()).await;", "expect": "C08.D6:subreplies-in-request-order"},
     {"name": "tick-keeps-response-flag", "file": "src/proxy/backend.rs", "old": "                task_empty = tasks.is_empty();\n                response_received = false;", "new": "                task_empty = tasks.is_empty();\n                if task_empty {\n                    response_received = false;\n                }", "expect": "C08.D7:backend-tick-clears-response-flag"},
     {"name": "session-idle-timeout-ignores-pending", "file": "src/proxy/session.rs", "old": "                if !data_received && reply_receiver_list.is_empty() {", "new": "                if !data_received && replies.is_empty() {", "expect": "C08.D7:session-idle-timeout"},
     {"name": "fanout-without-count-check", "file": "src/proxy/backend.rs", "old": "                        if v.len() != results.len() {", "new": "                        if v.is_empty() && !results.is_empty() {", "expect": "C08.D6:pairing-after-count-check"},
@@ -50,7 +52,9 @@ def run(ctx):
     ctx.rule("C08.D4", "session side: reply futures and replies are queued and consumed in FIFO order only, each handled command contributes one queued future, a popped reply is sent, and the write loop never reports completion without flushing")
     _session(ctx)
     _flush_liveness(ctx)
+    _collect_loop_exits(ctx)
     _fanout(ctx)
+    _subreplies_in_request_order(ctx)
     _timers(ctx)
     _typestate(ctx)
     _fifo(ctx)
@@ -458,6 +462,95 @@ def _flush_liveness(ctx):
                     bad = (bb, "does not answer true")
         ctx.check(bad is None, "C08.D5", "need_flush:%s:bytes-pending" % v["name"], site(b, bad[0]) if bad else site(b), ok="false only after the flush timer was polled" if v["name"] != "Disabled" else "true",
                   bad="with bytes pending and strategy %s, need_flush %s: the buffered request is not flushed and nothing wakes the connection task up" % (v["name"], bad[1] if bad else ""))
+
+
+def _collect_loop_exits(ctx):
+    """the session's collect loop (`while let Some(r) = reply_receiver_list.front_mut() { poll r .. }`) may stop only when
+    the queue is empty or after it polled the front future in that very iteration (Pending: the poll registered the
+    task's waker).  Any other exit leaves a finished or pending reply future unpolled: nothing wakes the session for it
+    and its client waits for ever while the connection stays open."""
+    F = ctx.F
+    R = "C08.D5"
+    cands = [b for b in F.all_bodies(bins=False) if b.path.startswith("proxy::session::handle_session::{closure#0}::{closure") and b.kind == "Closure" and calls_to(b, "VecDeque::pop_front")]
+    if not cands:
+        ctx.lost(R, "collect-loop", "handle_session poll closure not found")
+        return
+    b = cands[0]
+    du = DefUse(b)
+    fm = [(bb, t) for bb, t in calls_to(b, "VecDeque::front_mut") if "reply_receiver_list" in _cap_role(F, b, du.slice_operand(t["args"][0], deep=False))]
+    polls = [(bb, t) for bb, t in b.calls() if (callee_decl(t) or "").endswith("Future::poll")]
+    if not (ctx.floor(R, "reply_receiver_list.front_mut()", len(fm), 1) and ctx.floor(R, "poll of a reply future", len(polls), 1)):
+        return
+    loops = [(t_, h, cfg.loop_blocks(b, t_, h)) for t_, h in cfg.natural_loops(b)]
+    loops = [(t_, h, L) for t_, h, L in loops if fm[0][0] in L and any(pb in L for pb, _ in polls)]
+    if not ctx.floor(R, "collect loop", len(loops), 1):
+        return
+    L = set().union(*[l for _, _, l in loops])
+    head = loops[0][1]
+    pset = {pb for pb, _ in polls if pb in L}
+    succs = b.succs()
+    inner = {x: [y for y in succs[x] if y in L and y != head] for x in L}
+    for x in range(len(b.blocks)):
+        inner.setdefault(x, [])
+    fres = fm[0][1]["dest"]["l"]
+    bad = []
+    n = 0
+    for u in sorted(L):
+        for v in succs[u]:
+            if v in L or b.blocks[v].cleanup:
+                continue
+            n += 1
+            # (a) the queue is empty: the exit is the None arm of front_mut()'s own result
+            t = b.blocks[u].term
+            if t["k"] == "switch":
+                pl_ = t["discr"].get("mv") or t["discr"].get("cp")
+                own = any(df[0] == "assign" and df[3]["rv"]["k"] == "discr" and df[3]["rv"]["p"]["l"] == fres and not df[3]["rv"]["p"]["p"] for df in du.defs.get(pl_["l"], [])) if pl_ else False
+                if own:
+                    continue
+            # (b) the front future was polled in this iteration
+            if u in pset or cfg.path_between(b, head, u, avoid=pset, succs=inner) is None and u != head:
+                continue
+            bad.append((u, b.blocks[u].term.get("line")))
+    ctx.floor(R, "exits of the collect loop", n, 2)
+    ctx.check(not bad, R, "collect-loop-stops-only-empty-or-polled", site(b, bad[0][0]) if bad else site(b, head), ok="the collect loop ends only on an empty queue or after polling the front reply future",
+              bad="the collect loop can stop (line %s) with a reply future at the front that was not polled in this round: no waker is registered for it, the reply is never collected and the client waits for ever" % [l for _, l in bad])
+
+
+def _subreplies_in_request_order(ctx):
+    """a handler that assembles its reply positionally from the results of its sub-commands (MGET) awaits them with a
+    combinator that keeps the order of the futures it was given"""
+    F = ctx.F
+    R = "C08.D6"
+    ORDERED = ("futures::future::join_all", "futures::future::try_join_all")
+    n = 0
+    for b in F.all_bodies(bins=False):
+        if b.crate != "undermoon" or b.is_mock() or not b.path.startswith("proxy::") or "tests::" in b.path:
+            continue
+        cons = [(bb, t) for bb, t in b.calls() if t.get("atys") and t["atys"][0].startswith("std::vec::Vec<") and "Future" in t["atys"][0]
+                and "mv" in t["args"][0] and not (callee_of(t) or callee_decl(t) or "").endswith("drop_in_place")]
+        if not cons:
+            continue
+        du = DefUse(b)
+        dom = cfg.dominators(b)
+        for cb, ct in cons:
+            c = callee_of(ct) or callee_decl(ct) or ""
+            pos = []
+            for bb, t in calls_to(b, "Vec::push"):
+                if cb in dom.get(bb, ()) and len(t["args"]) > 1 and cb in du.slice_operand(t["args"][1]).calls.get(c, set()):
+                    pos.append(bb)
+            if not pos:
+                continue   # results only folded (count / all-ok): their order does not reach the reply
+            n += 1
+            ctx.analysed(b)
+            ok = c in ORDERED
+            if not ok and c in F.bodies:
+                fam = [F.bodies[c]] + [x for x in F.all_bodies(bins=False) if x.path.startswith(c + "::{closure")]
+                ok = any((callee_of(t2) or callee_decl(t2) or "") in ORDERED for x in fam for _, t2 in x.calls())
+            if not ok and c.endswith("IntoIterator>::into_iter"):
+                ok = True   # awaited one after the other
+            ctx.check(ok, R, "subreplies-in-request-order:%s" % b.path.split("::{closure")[0].rsplit("::", 1)[-1], site(b, cb), ok="sub-replies are awaited by %s (keeps the order of the futures)" % c,
+                      bad="the reply is assembled position by position from sub-command results that are awaited by %s, which does not yield them in the order of the requests: values are returned for the wrong keys" % c)
+    ctx.floor(R, "positional fan-out handlers", n, 1)
 
 
 def _fanout(ctx):
